@@ -129,6 +129,14 @@ def histories(tier, seed):
         h[0]['bare'] = True
         out.append((ini, h))
         k += 1
+    # nested flows: the steps of template T2 one level down in the compartment
+    for _ in range(100 if tier == 'quick' else 1000):
+        ini = rng.choice(INITIALS)
+        h = sr.random_history(rng, rng.randint(2, 6), model_of(ini), names=['a', 'b', 'c'],
+                              tpls=('T2', 'T2', 'T1', 'T4'), max_comps=3)
+        h = [dict(o) for o in h]
+        h[0]['nest2'] = True
+        out.append((ini, h))
     return out
 
 
